@@ -862,3 +862,39 @@ func init() {
 		return nil
 	}
 }
+
+func init() {
+	// vSetOpaque(ptr, tag): *ptr = an opaque interface value carrying tag
+	apiIntrinsics["vSetOpaque"] = func(fr *frame, args []value) value {
+		p := args[0].(iface).v.(*value)
+		*p = iface{t: opaqueIfaceType, v: &opaque{tag: concreteString(args[1], "opaque tag")}}
+		return nil
+	}
+	// vOpaqueTag(x): the tag of an opaque interface value ("" otherwise)
+	apiIntrinsics["vOpaqueTag"] = func(fr *frame, args []value) value {
+		x := args[0].(iface)
+		if inner, ok := x.v.(iface); ok {
+			x = inner
+		}
+		if o, ok := x.v.(*opaque); ok {
+			return mkStr(o.tag)
+		}
+		return mkStr("")
+	}
+	// vBoundMethodOf(f, recv, name): f is the method value recv.name
+	apiIntrinsics["vBoundMethodOf"] = func(fr *frame, args []value) value {
+		f := args[0].(iface)
+		cl, ok := f.v.(*closure)
+		if !ok || cl == nil || len(cl.Env) != 1 {
+			return tFalse
+		}
+		name := concreteString(args[2], "method name")
+		if !strings.HasSuffix(cl.Fn.Name(), name+"$bound") {
+			return tFalse
+		}
+		recv := args[1].(iface)
+		rp, ok1 := recv.v.(*value)
+		ep, ok2 := cl.Env[0].(*value)
+		return mkBool(ok1 && ok2 && rp == ep)
+	}
+}
